@@ -21,6 +21,9 @@ depends on it):
       sampler) gives the same three result lists;
   (3) the model's closedb agrees that the generated archive is closed.
 oracle(): the property evaluated directly on the implementation's behaviour.
+Deep hierarchies (>= 1200 nested directories) get one model run (replay) each:
+the extracted model is quadratic in the number of objects (about 0.4 s for 2000
+objects, 1.5 s for 3500).
 """
 import json
 import os
@@ -46,7 +49,12 @@ RULE = ("random DAGs of 0-25 objects (contents, skipped contents, directories bu
         "that stays empty) / None / omitted (then no event is expected); the archive as instance with closures, class "
         "with bound methods, callable-instance attributes (falsy), static methods on a falsy instance, __slots__; its "
         "answers as list / generator / iterator / tuple / set / frozenset / dict_keys; the input containers as list or "
-        "list subclass (the code takes len() of them, so one-shot iterables are outside the signature).  non-trivial = the archive knows some but not "
+        "list subclass (the code takes len() of them, so one-shot iterables are outside the signature).  DEEP hierarchies "
+        "(4 per quick run, 40 per thorough run): chains of 1200-2000 nested directories with 0-2 (skipped) contents "
+        "per level, combs (a leaf directory at every level of the spine), two chains sharing a long tail, with archives "
+        "knowing nothing / everything / the bottom k levels, SAMPLE_SIZE 1, 3, 1000, all three samplers; termination "
+        "is part of the property: RecursionError, any other exception or a timeout is a violation; shrinking removes "
+        "halves, quarters ... of the hierarchy first.  non-trivial = the archive knows some but not "
         "all objects and some directory of the set has >= 2 parents in the set; distinct = distinct canonical case")
 TRUSTED = ["Python set/dict semantics as modelled in model/Discovery.v (sets = duplicate-free lists, set.pop() = "
            "arbitrary pick oracle, random.sample = sampler oracle bound only by `k distinct elements of the population`)",
@@ -85,18 +93,24 @@ def dec_ids(s):
 
 # ---------------------------------------------------------------- generator
 def depths(c):
-    """depth of every object: contents 0, directory 1 + max depth of its children in the set"""
+    """depth of every object: contents 0, directory 1 + max depth of its children in the set (iterative: the
+    hierarchies may be thousands of levels deep)"""
     ch = {i: cs for i, cs in c["dirs"]}
-    memo = {}
-
-    def d(i):
-        if i not in memo:
-            memo[i] = 0
-            if i in ch:
-                memo[i] = 1 + max([d(k) for k in ch[i] if k < OUT_BASE] + [0])
-        return memo[i]
-    for i in list(c["contents"]) + list(c["skipped"]) + list(ch):
-        d(i)
+    memo = {i: 0 for i in list(c["contents"]) + list(c["skipped"])}
+    for root in ch:
+        if root in memo:
+            continue
+        stack = [root]
+        onstack = {root}
+        while stack:
+            i = stack[-1]
+            todo = [k for k in ch[i] if k in ch and k not in memo and k not in onstack]
+            if todo:
+                stack.append(todo[0])
+                onstack.add(todo[0])
+                continue
+            memo[i] = 1 + max([memo.get(k, 0) for k in ch[i] if k in ch or k in memo] + [0])
+            stack.pop()
     return memo
 
 
@@ -137,14 +151,18 @@ def gen_dag(rng, n, shape):
 
 
 def upward_closure(seeds, dirs):
+    par = {}
+    for i, cs in dirs:
+        for k in cs:
+            par.setdefault(k, []).append(i)
     miss = set(seeds)
-    changed = True
-    while changed:
-        changed = False
-        for i, cs in dirs:
-            if i not in miss and any(k in miss for k in cs):
+    todo = list(miss)
+    while todo:
+        k = todo.pop()
+        for i in par.get(k, ()):
+            if i not in miss:
                 miss.add(i)
-                changed = True
+                todo.append(i)
     return miss
 
 
@@ -186,6 +204,128 @@ def mk_case(rng, n, shape, ss, strategy, missing_mode):
     if rng.random() < 0.25:
         case["containers"] = rng.choice(CONTAINER_SHAPES[1:])
     return case
+
+
+DEEP_OUT = 10 ** 6      # entry targets outside the set in the deep shapes
+DEEP_SHAPES = ["chain", "comb", "twin"]
+DEEP_MODES = ["nothing-known", "all-known", "bottom-known"]
+
+
+def mk_deep(rng, shape, levels, mode, ss, strategy, k=None, density=1.0):
+    """Hierarchies deeper than any interpreter recursion limit in use (>= 1200 nested directories):
+    chain = one path of `levels` directories, each with 0-2 (skipped) contents;
+    comb  = the same spine with, at every level, a leaf directory holding one content;
+    twin  = two chains that share a long tail.
+    mode: the archive knows nothing / everything / exactly the bottom k levels (downward closed) plus, above them,
+    some contents and leaf directories."""
+    nid = [0]
+
+    def fresh():
+        nid[0] += 1
+        return nid[0]
+    contents, skipped, dirs = [], [], []
+    level = {}           # spine directory -> distance from the top of its path
+    below = {}           # directory -> objects hanging directly under it that are not spine directories
+    leafdir_content = {}
+
+    def files(d, cs, lo, hi):
+        for _ in range(max(lo, rng.choice([0, 0, 0, 1, hi]) if rng.random() < density else 0)):
+            f = fresh()
+            (skipped if rng.random() < 0.15 else contents).append(f)
+            cs.append(f)
+            below[d].append(f)
+
+    def spine(n, first_level, tail_id):
+        """n nested directories; the last one has `tail_id` as sub-directory (or none); returns the id of the first"""
+        ids = [fresh() for _ in range(n)]
+        for j, d in enumerate(ids):
+            level[d] = first_level + j
+            below[d] = []
+            cs = []
+            nxt = ids[j + 1] if j + 1 < n else tail_id
+            if nxt is not None:
+                cs.append(nxt)
+            if shape != "comb" or nxt is None:
+                files(d, cs, 1 if nxt is None else 0, 2)      # the bottom directory is never empty
+            if shape == "comb":
+                leaf = fresh()
+                if rng.random() < 0.25 * density:
+                    f = fresh()
+                    contents.append(f)
+                    leafdir_content[leaf] = f
+                else:
+                    f = DEEP_OUT + leaf          # a leaf directory whose only entry points outside the set
+                dirs.append([leaf, [f]])
+                cs.append(leaf)
+                below[d].append(leaf)
+            if (level[d] + 1) % 97 == 0:
+                cs.append(DEEP_OUT + d)
+            rng.shuffle(cs)
+            dirs.append([d, cs])
+        return ids[0]
+    if shape == "twin":
+        h = levels // 4
+        t = spine(levels - h, h, None)
+        spine(h, 0, t)
+        spine(h, 0, t)
+    else:
+        spine(levels, 0, None)
+    objs = contents + skipped + [d for d, _ in dirs]
+    if mode == "nothing-known":
+        miss = set(objs)
+    elif mode == "all-known":
+        miss = set()
+    else:
+        k = k or rng.choice([levels // 2, levels - 1100, 1100, levels - 3])
+        miss = set()
+        for d, lv in level.items():
+            if lv < levels - k:
+                miss.add(d)
+                for o in below[d]:
+                    if rng.random() < 0.5:
+                        miss.add(o)
+                        if o in leafdir_content:
+                            miss.add(leafdir_content[o])
+                    elif o in leafdir_content and rng.random() < 0.5:
+                        pass      # known leaf directory: its content is known too
+        miss = upward_closure(miss, dirs)
+    order = rng.random()
+    if order < 0.4:
+        rng.shuffle(dirs)
+    elif order < 0.7:
+        dirs.sort(key=lambda p: p[0])
+    rng.shuffle(contents)
+    return {"contents": contents, "skipped": skipped, "dirs": dirs, "missing": sorted(miss), "ss": ss,
+            "sampler": strategy, "deep": shape}
+
+
+def gen_deep(rng, tier):
+    cases = []
+    if tier == "quick":
+        # a handful, chosen so that few rounds are needed (each round costs O(objects) on both sides); note that the
+        # "deep" strategy draws the directories with the tallest sub-tree (the roots) first, "shallow" the bottom ones
+        plan = [("chain", 1200, "nothing-known", 1, "shallow"), ("chain", 1250, "all-known", 1, "deep"),
+                ("comb", 1200, "all-known", 1, "deep"), ("twin", 1200, "bottom-known", 1000, "random")]
+    else:
+        plan = []
+        for shape in DEEP_SHAPES:
+            for mode in DEEP_MODES:
+                for ss in (1, 1000, 3):
+                    for st in ("random", "deep", "shallow"):
+                        # with a small SAMPLE_SIZE and an adversarial sampler there is one round per level
+                        slow = ss < 1000 and st != "random"
+                        plan.append((shape, rng.randrange(1200, 1400 if slow or shape == "comb" else 2000), mode, ss, st))
+        rng.shuffle(plan)
+        plan = plan[:40]
+    for shape, levels, mode, ss, st in plan:
+        if st == "random":
+            st = "random:%d" % rng.randrange(1 << 30)
+        c = mk_deep(rng, shape, levels, mode, ss, st, k=levels // 2 if tier == "quick" else None,
+                    density=0.15 if tier == "quick" else 1.0)
+        if rng.random() < 0.5:
+            c["cb"] = rng.choice(CALLBACK_SHAPES[1:-2])
+        cases.append(c)
+    return cases
 
 
 # first item = the default when the key is absent from a case
@@ -231,7 +371,8 @@ def gen(rng, tier):
             c["hashseed"] = hs
             _PENDING.setdefault(hs, []).append(c)
         cases.append(c)
-    return cases
+    deep = gen_deep(rng, tier)
+    return cases[:40] + deep + cases[40:]
 
 
 def parents_in_set(c):
@@ -259,8 +400,12 @@ def classify(c):
           "sampler=" + c["sampler"].split(":")[0]]
     m = len(c["missing"])
     ks.append("missing=" + ("none" if m == 0 else "all" if m == n else "some"))
-    if any(k >= OUT_BASE for _, cs in c["dirs"] for k in cs):
+    oset = set(objs)
+    if any(k not in oset for _, cs in c["dirs"] for k in cs):
         ks.append("outside-entry")
+    if "deep" in c:
+        ks.append("deep=" + c["deep"])
+        ks.append("depth>=1000" if max(depths(c).values(), default=0) >= 1000 else "depth<1000")
     dirs = {i for i, _ in c["dirs"]}
     par = parents_in_set(c)
     if any(k in dirs and len(ps) >= 2 for k, ps in par.items()):
@@ -295,36 +440,36 @@ def build_objects(c):
         real[i] = o.sha1_git
         objs[i] = o
     ch = {i: cs for i, cs in c["dirs"]}
-    is_dir = set(ch)
+    import hashlib
 
-    def target(k):
-        if k in real:
-            return real[k]
-        if k >= OUT_BASE or k not in ch:
-            import hashlib
-            real[k] = hashlib.sha1(b"outside %d" % k).digest()
-            return real[k]
-        build(k)
-        return real[k]
-
-    def build(i):
-        if i in real:
-            return
-        real[i] = None     # guard (the generator never produces cycles)
+    def make(i):
         entries = []
         for j, k in enumerate(ch[i]):
-            t = target(k)
-            if t is None:
-                raise ValueError("cyclic case")
-            if k in is_dir:
-                entries.append(model.DirectoryEntry(name=b"d%d_e%d" % (i, j), type="dir", target=t, perms=0o040000))
+            if k not in real:      # neither a content nor a directory of the set: an entry pointing outside
+                real[k] = hashlib.sha1(b"outside %d" % k).digest()
+            if k in ch:
+                entries.append(model.DirectoryEntry(name=b"d%d_e%d" % (i, j), type="dir", target=real[k], perms=0o040000))
             else:
-                entries.append(model.DirectoryEntry(name=b"d%d_e%d" % (i, j), type="file", target=t, perms=0o100644))
+                entries.append(model.DirectoryEntry(name=b"d%d_e%d" % (i, j), type="file", target=real[k], perms=0o100644))
         d = model.Directory(entries=tuple(entries))
         real[i] = d.id
         objs[i] = d
-    for i, _ in c["dirs"]:
-        build(i)
+
+    for root, _ in c["dirs"]:      # bottom-up with an explicit stack (hierarchies may be thousands of levels deep)
+        if root in real:
+            continue
+        stack, onstack = [root], {root}
+        while stack:
+            i = stack[-1]
+            todo = [k for k in ch[i] if k in ch and k not in real]
+            if todo:
+                if todo[0] in onstack:
+                    raise ValueError("cyclic case")
+                stack.append(todo[0])
+                onstack.add(todo[0])
+                continue
+            make(i)
+            onstack.discard(stack.pop())
     back = {}
     for k, v in real.items():
         if v in back and back[v] != k:
@@ -344,16 +489,21 @@ class _FakeRandom:
         return getattr(self._real, name)
 
     def sample(self, population, k):
-        pop = sorted(population, key=lambda b: self._back[b])
-        if self._rng is not None:
-            res = self._rng.sample(pop, k)
+        import heapq
+        back, depth = self._back, self._depth
+        if k > len(population) or k < 0:
+            raise ValueError("Sample larger than population or is negative")
+        if self._rng is not None and len(population) <= 200:
+            res = self._rng.sample(sorted(population, key=lambda b: back[b]), k)
+        elif self._rng is not None:
+            # the k smallest under a fresh seeded scrambling of the abstract ids: independent of the order of
+            # `population` (hence of PYTHONHASHSEED) and linear in its size
+            salt = self._rng.getrandbits(30) | 1
+            res = heapq.nsmallest(k, population, key=lambda b: ((back[b] * 2654435761 + salt) * salt % 1000003, back[b]))
         else:
             sign = -1 if self._strategy == "deep" else 1
-            res = sorted(pop, key=lambda b: (sign * self._depth[self._back[b]], self._back[b]))[:k]
-            if len(res) < k:
-                raise ValueError("Sample larger than population or is negative")
-        self._log.append({"round": self._nq(), "population": sorted(self._back[b] for b in population), "k": k,
-                          "result": [self._back[b] for b in res]})
+            res = heapq.nsmallest(k, population, key=lambda b: (sign * depth[back[b]], back[b]))
+        self._log.append({"round": self._nq(), "npop": len(population), "k": k, "result": [back[b] for b in res]})
         return list(res)
 
 
@@ -612,9 +762,10 @@ def samples_by_round(ires):
 def requests(c):
     ires = impl(c)
     args = "%s %s %s %s" % (enc_ids(c["contents"]), enc_ids(c["skipped"]), enc_dirs(c["dirs"]), enc_ids(c["missing"]))
-    return ["run %d fifo replay %s %s" % (c["ss"], args, enc_samples(samples_by_round(ires))),
-            "run %d lifo last %s ." % (c["ss"], args),
-            "closed " + args]
+    reqs = ["run %d fifo replay %s %s" % (c["ss"], args, enc_samples(samples_by_round(ires)))]
+    if "deep" not in c:      # the model is quadratic in the number of objects: one run of it per deep case
+        reqs.append("run %d lifo last %s ." % (c["ss"], args))
+    return reqs + ["closed " + args]
 
 
 def dec_run(line):
@@ -631,7 +782,7 @@ def dec_run(line):
 
 
 def model(c, resp):
-    return {"replay": dec_run(resp[0]), "independent": dec_run(resp[1]), "closed": resp[2]}
+    return {"replay": dec_run(resp[0]), "independent": dec_run(resp[1]) if len(resp) > 2 else None, "closed": resp[-1]}
 
 
 # ---------------------------------------------------------------- property oracle and comparison
@@ -677,6 +828,8 @@ def compare(c, ires, mres):
     if "error" in rep:
         return ("the model does not accept the implementation's run (sampler replay): " + rep["error"] +
                 " draws=" + str(ires.get("draws")))
+    if ind is None:
+        ind = rep
     if "error" in ind:
         return "model failed under the independent oracles: " + ind["error"]
     for name in ("contents", "skipped", "dirs"):
@@ -691,22 +844,59 @@ def compare(c, ires, mres):
         return "archive queries differ: impl %r, model %r" % (iq, sorted(rep["queries"]))
     # every query is non-empty and asks only about objects still undecided at that time
     objs = set(c["contents"]) | set(c["skipped"]) | {i for i, _ in c["dirs"]}
+    decided, nd = set(), 0
     for q in ires["queries"]:
-        decided = {o for o, _ in ires["events"][:q["events_before"]]}
+        while nd < q["events_before"]:
+            decided.add(ires["events"][nd][0])
+            nd += 1
         if not q["ids"]:
             return "empty archive query"
-        if not no_cb and not set(q["ids"]) <= objs - decided:
-            return "archive asked about ids that are not undecided objects: %r" % (sorted(set(q["ids"]) - (objs - decided)),)
+        if not no_cb and not (set(q["ids"]) <= objs and decided.isdisjoint(q["ids"])):
+            return "archive asked about ids that are not undecided objects: %r" % (sorted(i for i in q["ids"] if i in decided or i not in objs),)
     # every draw obeyed the replaced random.sample's contract on the implementation side too
     for d in ires["draws"]:
-        if d["k"] != c["ss"] or len(d["population"]) < c["ss"]:
-            return "random.sample called with k=%r on a population of %d (SAMPLE_SIZE=%d)" % (d["k"], len(d["population"]), c["ss"])
+        if d["k"] != c["ss"] or d["npop"] < c["ss"]:
+            return "random.sample called with k=%r on a population of %d (SAMPLE_SIZE=%d)" % (d["k"], d["npop"], c["ss"])
     return None
+
+
+def _without(c, gone):
+    """the case without the objects in `gone` (entries pointing to them are dropped too); directories must stay
+    pairwise distinct, so every empty directory but one receives an entry pointing outside the set"""
+    dirs = [[i, [k for k in cs if k not in gone]] for i, cs in c["dirs"] if i not in gone]
+    seen_empty = False
+    for d in dirs:
+        if not d[1]:
+            if seen_empty:
+                d[1] = [2 * DEEP_OUT + d[0]]
+            seen_empty = True
+    seeds = [m for m in c["missing"] if m not in gone]
+    d = dict(c, contents=[x for x in c["contents"] if x not in gone], skipped=[x for x in c["skipped"] if x not in gone],
+             dirs=dirs, missing=sorted(upward_closure(seeds, dirs)))
+    d.pop("hashseed", None)
+    return d
 
 
 def shrink(c):
     objs = c["contents"] + c["skipped"] + [i for i, _ in c["dirs"]]
     one_empty = lambda dirs: sum(1 for _, cs in dirs if not cs) <= 1    # directories must stay pairwise distinct
+    for key in ("cb", "archive", "answer", "containers"):      # the default shape, if the failure does not need this one
+        if key in c:
+            yield {k: v for k, v in c.items() if k != key}
+    if len(objs) > 16:
+        # big chunks first (delta debugging): the directories from the top of the hierarchy down, then the contents;
+        # halves, quarters, ... so that a deep hierarchy is cut to about the smallest depth that still fails
+        dp = depths(c)
+        order = sorted((i for i, _ in c["dirs"]), key=lambda i: (-dp[i], i)) + c["contents"] + c["skipped"]
+        size = len(order) // 2
+        while size >= 2:
+            for start in range(0, len(order), size):
+                yield _without(c, set(order[start:start + size]))
+            size //= 2
+    if c["ss"] != 1:
+        yield dict(c, ss=1)
+    if c["sampler"] != "shallow":
+        yield dict(c, sampler="shallow")
     for gone in objs:
         dirs = [[i, [k for k in cs if k != gone]] for i, cs in c["dirs"] if i != gone]
         if not one_empty(dirs):
@@ -725,13 +915,6 @@ def shrink(c):
             d.pop("hashseed", None)
             # removing an entry may make a missing directory closed-known again; keep the missing set (still upward closed)
             yield d
-    for key in ("cb", "archive", "answer", "containers"):      # the default shape, if the failure does not need this one
-        if key in c:
-            yield {k: v for k, v in c.items() if k != key}
-    if c["ss"] != 1:
-        yield dict(c, ss=1)
-    if c["sampler"] != "shallow":
-        yield dict(c, sampler="shallow")
 
 
 def pre_checks(ctx):
@@ -755,6 +938,7 @@ def coq_cases(cases):
     by vm_compute inside Coq vs the extracted driver: the three result lists, the callback events and the archive queries
     (extraction cross-check)"""
     from . import core
+    cases = [c for c in cases if len(c["dirs"]) + len(c["contents"]) + len(c["skipped"]) <= 40]    # vm_compute inside Coq
     def ids(l):
         return "[" + "; ".join("%d" % i for i in l) + "]%N"
     def coq_case(c):
